@@ -7,6 +7,7 @@ import (
 func init() {
 	vRegister("H_C15_Packets", H_C15_Packets)
 	vRegister("H_C15_Streams", H_C15_Streams)
+	vRegister("H_C15_KeyInstalledLater", H_C15_KeyInstalledLater)
 }
 
 // vCryptoFix: encryption enforced, keyring mid-rotation (new primary first, old key still installed).
@@ -201,4 +202,43 @@ func vPeerOf(f *vFix, label string) (*vFix, []byte, string) {
 	p := vNewML(conf)
 	p.vAddSelfNamed(vPeerA)
 	return p, nil, label
+}
+
+// C15 over a history: a node created with an empty keyring may talk in clear; from the moment a key is
+// installed every packet and stream is sealed under it, and a later primary change is followed at once.
+func H_C15_KeyInstalledLater() {
+	conf := vBaseConfig()
+	kr, err := NewKeyring(nil, nil)
+	vAssert(err == nil, "c15.later.keyring")
+	conf.Keyring = kr
+	conf.Label = string(vBytes(vPick(2)))
+	f := vNewML(conf)
+	m := f.m
+	f.vAddSelf(3, nil)
+	peer := f.vAddConcreteAlive(vPeerA, 2)
+	peer.PMax = 2
+	to := Address{Addr: "10.0.0.2:7946", Name: vPeerA}
+	// traffic before any key exists
+	if vPick(2) == 1 {
+		vAssert(m.SendBestEffort(&peer.Node, vBytes(2)) == nil, "c15.later.clear-send")
+		c0 := &vConn{}
+		f.tr.conn = c0
+		vAssert(m.sendUserMsg(to, vBytes(2)) == nil, "c15.later.clear-stream")
+	}
+	k1, k2 := vBytes(16), vBytes(16)
+	vAssume(!vEqBytes(k1, k2))
+	vAssert(kr.AddKey(k1) == nil, "c15.later.addkey")
+	f.tr.packets = nil
+	vAssert(m.SendBestEffort(&peer.Node, vBytes(2)) == nil, "c15.later.send")
+	f.vAllPacketsSealed(k1, conf.Label, "c15.later.pkt")
+	c1 := &vConn{}
+	f.tr.conn = c1
+	vAssert(m.sendUserMsg(to, vBytes(2)) == nil, "c15.later.stream")
+	vStreamSealed(c1.out, k1, conf.Label, conf.Label, "c15.later.str")
+	// rotation: the new primary is used from the next message on
+	vAssert(kr.AddKey(k2) == nil && kr.UseKey(k2) == nil, "c15.later.rotate")
+	f.tr.packets = nil
+	vAssert(m.SendBestEffort(&peer.Node, vBytes(2)) == nil, "c15.later.send2")
+	f.vAllPacketsSealed(k2, conf.Label, "c15.later.pkt2")
+	vCover("c15.later")
 }
